@@ -686,7 +686,33 @@ func allocOrigin(v ssa.Value) ssa.Value {
 }
 
 // heldMutexes: mutexes locked on every path to instr in fn (dominating Lock without a dominating Unlock after it).
+// lockKey names a mutex: relative to the shared variable when it is a field of it ("self.<path>"), so that the
+// same mutex is recognised from the parent, from a closure and from a method of the variable's type.
+func lockKey(v ssa.Value, target ssa.Value) string {
+	if target != nil && allocOrigin(v) == target {
+		path := ""
+		for {
+			switch x := v.(type) {
+			case *ssa.FieldAddr:
+				path = fmt.Sprintf(".%d", x.Field) + path
+				v = x.X
+				continue
+			case *ssa.IndexAddr:
+				v = x.X
+				continue
+			}
+			break
+		}
+		return "self" + path
+	}
+	return originText(v)
+}
+
 func heldMutexes(fn *ssa.Function, at ssa.Instruction) map[string]bool {
+	return heldMutexesRel(fn, at, nil)
+}
+
+func heldMutexesRel(fn *ssa.Function, at ssa.Instruction, target ssa.Value) map[string]bool {
 	held := map[string]bool{}
 	blk := at.Block()
 	doms := map[*ssa.BasicBlock]bool{}
@@ -730,7 +756,7 @@ func heldMutexes(fn *ssa.Function, at ssa.Instruction) map[string]bool {
 			if f == nil || f.Pkg == nil || f.Pkg.Pkg.Path() != "sync" || len(cc.Args) == 0 {
 				continue
 			}
-			m := originText(cc.Args[0])
+			m := lockKey(cc.Args[0], target)
 			switch f.Name() {
 			case "Lock", "RLock":
 				evs = append(evs, ev{true, m, b, i})
@@ -785,7 +811,23 @@ func isSyncType(t types.Type) bool {
 }
 
 func collectAccesses(fn *ssa.Function, target ssa.Value, out *[]access, after ssa.Instruction) {
-	// accesses to target (an Alloc in the parent or a FreeVar in a closure) in fn
+	collectAccessesIn(fn, target, out, after, nil, 0)
+}
+
+// collectAccessesIn: accesses to target (an Alloc in the parent, a FreeVar in a closure or a pointer Parameter
+// of a function the variable's address was handed to) in fn and, through in-module static calls that are given
+// a pointer into the variable, in its callees. `outer` are the mutexes held at the call site.
+func collectAccessesIn(fn *ssa.Function, target ssa.Value, out *[]access, after ssa.Instruction, outer map[string]bool, depth int) {
+	if fn == nil || fn.Blocks == nil || depth > 4 {
+		return
+	}
+	locksAt := func(in ssa.Instruction) map[string]bool {
+		m := heldMutexesRel(fn, in, target)
+		for k := range outer {
+			m[k] = true
+		}
+		return m
+	}
 	reach := map[*ssa.BasicBlock]bool{}
 	startIdx := -1
 	if after != nil {
@@ -816,11 +858,11 @@ func collectAccesses(fn *ssa.Function, target ssa.Value, out *[]access, after ss
 			switch x := in.(type) {
 			case *ssa.Store:
 				if allocOrigin(x.Addr) == target {
-					*out = append(*out, access{write: true, in: fn, instr: in, locks: heldMutexes(fn, in)})
+					*out = append(*out, access{write: true, in: fn, instr: in, locks: locksAt(in)})
 				}
 			case *ssa.UnOp:
 				if x.Op == token.MUL && allocOrigin(x.X) == target {
-					*out = append(*out, access{write: false, in: fn, instr: in, locks: heldMutexes(fn, in)})
+					*out = append(*out, access{write: false, in: fn, instr: in, locks: locksAt(in)})
 				}
 			case *ssa.MakeClosure:
 				// nested closures capturing the same variable (not started with go) run in this goroutine
@@ -834,13 +876,42 @@ func collectAccesses(fn *ssa.Function, target ssa.Value, out *[]access, after ss
 							}
 						}
 						if !isGo {
-							collectAccesses(nf, nf.FreeVars[bi], out, nil)
+							collectAccessesIn(nf, nf.FreeVars[bi], out, nil, outer, depth+1)
+						}
+					}
+				}
+			case ssa.CallInstruction:
+				if _, isGo := in.(*ssa.Go); isGo {
+					continue
+				}
+				cc := x.Common()
+				f := cc.StaticCallee()
+				if f == nil || !inModule(f) || f.Blocks == nil {
+					continue
+				}
+				if _, isClosure := cc.Value.(*ssa.MakeClosure); isClosure {
+					continue
+				}
+				for ai, a := range cc.Args {
+					if ai < len(f.Params) && allocOrigin(a) == target && isPointerLike(a.Type()) {
+						// the callee works on (a part of) the shared variable; only whole-variable pointers keep the
+						// mutex naming aligned, which is the case for method receivers
+						if a == target || isAddrOf(a, target) {
+							collectAccessesIn(f, f.Params[ai], out, nil, locksAt(in), depth+1)
+						} else {
+							*out = append(*out, access{write: true, in: fn, instr: in, locks: locksAt(in)})
 						}
 					}
 				}
 			}
 		}
 	}
+}
+
+// isAddrOf: a is the address of the whole variable target (an Alloc is its own address; a FreeVar or pointer
+// Parameter is the pointer itself).
+func isAddrOf(a ssa.Value, target ssa.Value) bool {
+	return a == target
 }
 
 func RuleShare(r *Report, p *Program, rules aspectSet) {
@@ -895,8 +966,11 @@ func RuleShareIn(r *Report, p *Program, rules aspectSet, keep func(parent string
 				cfn := gt.Fn
 				gname := calleeName(cfn)
 				mc, isClosure := g.Call.Value.(*ssa.MakeClosure)
-				if rules["T8"] && isClosure {
-					for bi, bv := range mc.Bindings {
+				_ = mc
+				_ = isClosure
+				if rules["T8"] {
+					for bi, bv := range gt.Outer {
+						inner := gt.Inner[bi]
 						al, ok := bv.(*ssa.Alloc)
 						var elem types.Type
 						var vname string
@@ -904,7 +978,11 @@ func RuleShareIn(r *Report, p *Program, rules aspectSet, keep func(parent string
 							elem = al.Type().Underlying().(*types.Pointer).Elem()
 							vname = al.Comment
 						} else if fv, ok2 := bv.(*ssa.FreeVar); ok2 {
-							elem = fv.Type().Underlying().(*types.Pointer).Elem()
+							pt, isPtr := fv.Type().Underlying().(*types.Pointer)
+							if !isPtr {
+								continue
+							}
+							elem = pt.Elem()
 							vname = fv.Name()
 						} else {
 							continue
@@ -915,17 +993,16 @@ func RuleShareIn(r *Report, p *Program, rules aspectSet, keep func(parent string
 							continue
 						}
 						var inG, inP []access
-						collectAccesses(cfn, cfn.FreeVars[bi], &inG, nil)
+						collectAccesses(cfn, inner, &inG, nil)
 						collectAccesses(fn, bv, &inP, g)
 						// sibling goroutines started from the same parent capturing the same variable
 						for _, b2 := range fn.Blocks {
 							for _, in2 := range b2.Instrs {
 								if g2, ok := in2.(*ssa.Go); ok && g2 != g {
-									if mc2, ok := g2.Call.Value.(*ssa.MakeClosure); ok {
-										for bj, bv2 := range mc2.Bindings {
+									if gt2 := goTargetOf(g2); gt2 != nil {
+										for bj, bv2 := range gt2.Outer {
 											if bv2 == bv {
-												f2 := mc2.Fn.(*ssa.Function)
-												collectAccesses(f2, f2.FreeVars[bj], &inP, nil)
+												collectAccesses(gt2.Fn, gt2.Inner[bj], &inP, nil)
 											}
 										}
 									}
